@@ -55,6 +55,8 @@ type vmMMU struct {
 	tempActive bool
 	tempFrame  mm.Frame
 
+	handlers map[gate.InterruptNumber]func(*gate.Registers) // what the code under test registered through handleInterruptFn
+
 	problems []string // MMU-level faults noticed by the seams (reported by the harness as violations)
 	problemSigs []string
 }
@@ -336,7 +338,12 @@ func (m *vmMMU) install() (restore func()) {
 	}
 	translateFn = Translate
 	visitElfSectionsFn = multiboot.VisitElfSections
-	handleInterruptFn = func(_ gate.InterruptNumber, _ uint8, _ func(*gate.Registers)) {}
+	handleInterruptFn = func(n gate.InterruptNumber, _ uint8, h func(*gate.Registers)) {
+		if m.handlers == nil {
+			m.handlers = map[gate.InterruptNumber]func(*gate.Registers){}
+		}
+		m.handlers[n] = h
+	}
 	earlyReserveRegionFn = EarlyReserveRegion
 	earlyReserveLastUsed = tempMappingAddr
 	protectReservedZeroedPage = false
